@@ -15,6 +15,11 @@ CLAIMED = {
             "seconds up to 2^36*W; now-lastNow enumerated in 0..2W+1 (larger gaps take the same full-reset branch); TryFuse's error classification is checked under C27/C28 harnesses when built"),
 }
 
+CLAIMED['C35'] = ("allow-list decision of parseAllowIps + IPInfo.Match + Namespace.IsClientIPAllowed equals a 128-bit prefix-match reference for <=3 entries (IPv4/IPv6 host or CIDR, symbolic address bytes and prefix length) and every 4- or 16-byte client address",
+    "entry text parsing by net.ParseCIDR/ParseIP is a contract stub (well-formed text only); net.IP.Equal/To4/IPNet.Contains/CIDRMask replaced by non-forking equivalents under the engine (native replays use the real ones); IPv4-mapped IPv6 entry texts excluded")
+CLAIMED['C37'] = ("every sequence of k<=5 add/refresh/remove/tick operations on a real TimeWheel (N<=4 buckets, 2 keys, timeouts 1, N, N+1, 2N, 3N+1 ticks) fires each registration once, at tick j+d or j+d+1 after its latest activity, and never after removal",
+    "the wheel is driven directly (add/remove/handleTick) in the order its loop calls them; the pipeline channel, time.Sleep loop and tick durations other than 1s are outside the bound")
+
 NA_REASON = "check not built yet (work in progress; see DESIGN.md section 3 for the planned harness)"
 NA = {}
 
